@@ -232,3 +232,19 @@ def base_local(body, op_or_place):
             return l
         l = p2["l"]
     return l
+
+
+def arm_only_err(ctx, body, br, vals):
+    """The arm(s) of switch block `br` taken for `vals` lead only to `return Err` (no path to a normal
+    return that avoids every Err-producing block): the guard alone decides the error, no further
+    condition can rescue the path."""
+    from rules.C12 import only_err_from
+    arms = switch_arms(body, br)
+    ok = True
+    for v in vals:
+        tgt = arms.get(v)
+        if tgt is None:
+            continue
+        good, _ = only_err_from(ctx, body, tgt)
+        ok = ok and good
+    return ok
